@@ -13,7 +13,7 @@ import (
 // ---- C14: Hosts matcher ----
 
 type zzHostOp struct {
-	k int // 0 Add, 1 Delete, 2 RegisterInterceptor(digit)
+	k int // 0 Add, 1 Delete, 2 RegisterInterceptor(digit), 3 RegisterInterceptor under the name \\d+
 	d []string
 }
 
@@ -32,12 +32,16 @@ var zzC14Alpha = [][]zzHostOp{
 	{ // 3: sibling parameter domains; the one tried first is a leaf that matches only a proper prefix of the host
 		{0, []string{"{k:\\d+}.e"}}, {0, []string{"{z}.e.f"}}, {0, []string{"{w}.e"}}, {1, []string{"{z}.E.F"}},
 	},
+	{ // 4 (after a setup in which the rule text \d+ became an interceptor between two Adds): the same rule text is a regexp node in one domain and an interceptor node in the other
+		{1, []string{"{s:\\d+}.x.y"}}, {1, []string{"{s:\\d+}.x"}}, {0, []string{"{t:\\d+}.x.z"}}, {1, []string{"q.x"}},
+	},
 }
 
 var zzHostTraps = []string{"b.co:\u0668\u0660", "x.b.co:\u0661", "c.d:\uff18", "a1.e:8\u0660", "q.e:\u00b2", "api.b.co:\u0967", "\u00dcx.e", "\u00fcx.e:80", "\u00dcX.e"}
 
 // zzC14Setup: operations applied before the explored history.
-var zzC14Setup = [][]zzHostOp{nil, nil, {{0, []string{"a1.e", "b2.e", "c3.e", "d4.e", "e5.e", "{w}.e"}}, {0, []string{"fox.e", "fig.e"}}}, nil}
+var zzC14Setup = [][]zzHostOp{nil, nil, {{0, []string{"a1.e", "b2.e", "c3.e", "d4.e", "e5.e", "{w}.e"}}, {0, []string{"fox.e", "fig.e"}}}, nil,
+	{{0, []string{"{s:\\d+}.x.y", "q.x"}}, {3, nil}, {0, []string{"{s:\\d+}.x"}}}}
 
 // ZZC14(n): n = alphabet*1000 + depth*100 + max host length.
 func ZZC14(n int) {
@@ -78,6 +82,8 @@ func ZZC14(n int) {
 			zzv.Assume(!digit)
 			digit = true
 			hs.RegisterInterceptor(syntax.MatchDigit, "digit")
+		case 3: // the rule text of an already registered regexp domain becomes the name of an interceptor (same language)
+			hs.RegisterInterceptor(syntax.MatchDigit, "\\d+")
 		}
 	}
 	zzv.Cover("host-history")
